@@ -521,6 +521,33 @@ class SymBytes:
     def startswith(self, p):
         return self[:len(p)] == p
 
+    def ljust(self, width, fill=b' '):
+        f = list(bytes(fill))[0]
+        return SymBytes(self.items + [f] * max(0, width - len(self.items)), self.mutable)
+
+    def rjust(self, width, fill=b' '):
+        f = list(bytes(fill))[0]
+        return SymBytes([f] * max(0, width - len(self.items)) + self.items, self.mutable)
+
+    def translate(self, table, delete=b''):
+        if delete:
+            raise Unsupported('bytes.translate with a delete set on symbolic bytes')
+        table = bytes(table)
+        out = []
+        xor = table[0]
+        is_xor = all(table[i] == i ^ xor for i in range(256))
+        for it in self.items:
+            if isinstance(it, int):
+                out.append(table[it])
+            elif is_xor:
+                out.append(_simp(it ^ z3.BitVecVal(xor, 8)))
+            else:
+                t = z3.BitVecVal(table[255], 8)
+                for i in range(254, -1, -1):
+                    t = z3.If(it == i, z3.BitVecVal(table[i], 8), t)
+                out.append(t)
+        return SymBytes(out, self.mutable)
+
     def copy(self):
         return SymBytes(self.items, self.mutable)
 
